@@ -22,6 +22,8 @@ FINDING_DEV = {
     "KF-C03-08": "Docx!PreambleLost",
     "KF-C03-09": "Odt!EmptyHeadingDropped",
     "KF-C03-10": "Docx!UnitsBlockSdtLost",
+    "KF-C03-13": "Odp!TextBoxesAfterBody",
+    "KF-C03-14": "Ppt!TextBoxesAfterBody",
 }
 
 
